@@ -3,6 +3,7 @@ import PQ.Model.Reader
 import PQ.Model.Spec
 import PQ.Model.SpecWriter
 import PQ.Model.Snappy
+import PQ.Model.Introspect
 /-!
 # Line-protocol text ↔ model values (driver glue; not part of any theorem)
 -/
@@ -253,6 +254,54 @@ def parseCompress (tab : String) : Nat → Bytes → Bytes :=
         | _ => none)
       | _ => none
   fun c b => (entries.lookup (c, b)).getD [0xde, 0xad]
+
+def showOptInt (o : Option Int) : String := match o with | some n => toString n | none => "-"
+
+def showFMD (f : FMD) : String :=
+  let se := f.schema.map fun (ints, name) =>
+    s!"{hexBody name}:{showOptInt (ints.lookup 1)}:{showOptInt (ints.lookup 3)}:{showOptInt (ints.lookup 5)}:{showOptInt (ints.lookup 6)}"
+  let rgs := f.rowGroups.map fun rg =>
+    let cs := rg.columns.map fun ch => match ch.md with
+      | none => s!"{ch.fileOffset};nometa"
+      | some m => s!"{ch.fileOffset};{".".intercalate (m.path.map hexBody)};{m.ty};{m.codec};{m.numValues};{m.totalUncompressed};{m.totalCompressed};{m.dataPageOffset}"
+    s!"{rg.numRows}:{rg.totalByteSize}:{",".intercalate cs}"
+  s!"v={f.version} rows={f.numRows} schema={",".intercalate se} rgs={if rgs.isEmpty then "-" else "/".intercalate rgs}"
+
+def showOptBin (o : Option Bytes) : String := match o with | some b => "x" ++ hexBody b | none => "-"
+
+def showStatsFields (st : Option (List (Nat × Thrift.TVal))) : String :=
+  match st with
+  | none => "nostats"
+  | some fs => s!"{showOptInt (getI64 fs 3)};{showOptBin (getBin fs 6)};{showOptBin (getBin fs 5)}"
+
+def showPHdr (h : PHdr) : String :=
+  let d := match h.dph with
+    | none => "nodph"
+    | some (nv, e, de, re, st) => s!"{nv};{e};{de};{re};{showStatsFields st}"
+  s!"{h.ty}:{h.uncompressed}:{h.compressed}:{d}"
+
+def showPHdrs (r : R (List PHdr)) : String :=
+  match r with
+  | .error .err => "err"
+  | .error .panic => "panic"
+  | .ok hs => "ok " ++ (if hs.isEmpty then "-" else ",".intercalate (hs.map showPHdr))
+
+/-- what an independent walk finds: one header per data page in file order, and for each page its
+start offset and `num_values` (for the `PageHeadersAtOffset` expectations) -/
+def showWalk (f : SpecFile) : String :=
+  let rec chunkPages (pos : Nat) : List SpecPage → List String
+    | [] => []
+    | p :: ps => s!"{pos}:{p.numValues}" :: chunkPages (pos + p.headerLen + p.compressedLen) ps
+  let rec chunks (pos : Nat) : List SpecChunk → List String
+    | [] => []
+    | c :: cs => ("+".intercalate (chunkPages pos c.pages)) ::
+        chunks (pos + (c.pages.map fun p => p.headerLen + p.compressedLen).sum) cs
+  let rec rgs (pos : Nat) : List SpecRG → List String
+    | [] => []
+    | g :: gs => chunks pos g.chunks ++
+        rgs (pos + ((g.chunks.flatMap (·.pages)).map fun p => p.headerLen + p.compressedLen).sum) gs
+  let l := rgs 4 f.rowGroups
+  if l.isEmpty then "-" else ",".intercalate l
 
 def transpose (n : Nat) (colsRecs : List (List String)) : List String :=
   (List.range n).map fun i => "|".intercalate (colsRecs.map fun rs => rs.getD i "?")
